@@ -819,7 +819,13 @@ func (g *gen) iterable() (*gExpr, byte) {
 		keys := []string{"k1", "a", "zz", "m"}
 		g.r.Shuffle(len(keys), func(i, j int) { keys[i], keys[j] = keys[j], keys[i] })
 		for i := 0; i < n; i++ {
-			l = append(l, &gExpr{op: "slit", s: keys[i]}, g.intExprNoTern(1))
+			// (no host calls among the values: the language does not define the order in which the pairs of a
+			// hash literal are evaluated - the engine evaluates them in key order - so the oracle must not either)
+			v := g.intExprNoTern(1)
+			for hasCall(v) {
+				v = g.intExprNoTern(0)
+			}
+			l = append(l, &gExpr{op: "slit", s: keys[i]}, v)
 		}
 		return &gExpr{op: "hash", list: l}, 'h'
 	case 6:
